@@ -53,6 +53,8 @@ def run_model(mode, nalts, maxstrata, order, xs=(2,), workers='auto', timeout=15
     invs = list(MODEL_INVARIANTS)
     if mode == 'lemma':
         invs.append('AcceptanceIsMembership')
+    if mode == 'full':
+        invs.append('NamesNotInModel')
     if emit:
         invs.append('EmitInv')
     return tlc.run('SamplingMC', cfg(mode, maxstrata, order, invs),
@@ -501,32 +503,78 @@ def _full_utilities(rec, fam):
     return {i: log(Variable(f'a_{i}') * (Variable('x') + Variable(f'c_{i}'))) for i, _, _ in rec['alts']}
 
 
-def _nests(spec, ids):
+def _nests(spec, ids, names=None):
+    """Fresh nest objects (the library writes default names into them).  names: the labelling emitted by the
+    spec, '' = the nest is left unnamed (name=None, the library's default applies)."""
     from biogeme.expressions import Beta
     from biogeme.nests import NestsForNestedLogit, OneNestForNestedLogit
 
+    names = names if names is not None else [''] * len(spec)
     return NestsForNestedLogit(
         choice_set=list(ids),
         tuple_of_nests=tuple(
             OneNestForNestedLogit(nest_param=Beta(f'mu_{k}', float(n['mu']), None, None, 1), list_of_alternatives=list(n['sub']),
-                                  name=f'nest_{k}')
+                                  name=names[k] or None)
             for k, n in enumerate(spec)
         ),
     )
 
 
-def _cnl_nests(spec, ids):
+def _cnl_nests(spec, ids, names=None):
     from biogeme.expressions import Beta
     from biogeme.nests import NestsForCrossNestedLogit, OneNestForCrossNestedLogit
 
+    names = names if names is not None else [''] * len(spec)
     return NestsForCrossNestedLogit(
         choice_set=list(ids),
         tuple_of_nests=tuple(
             OneNestForCrossNestedLogit(nest_param=Beta(f'cmu_{k}', float(n['mu']), None, None, 1),
-                                       dict_of_alpha={i: num / den for i, num, den in n['alpha'] if num != 0}, name=f'cnest_{k}')
+                                       dict_of_alpha={i: num / den for i, num, den in n['alpha'] if num != 0}, name=names[k] or None)
             for k, n in enumerate(spec)
         ),
     )
+
+
+NAMING_KINDS = ('default', 'same', 'default-clash', 'distinct', 'default-clash-reverse')
+
+
+def _namings(part, pick):
+    """The labellings of one nest structure to replay: the default one always; pick = 'all' or a number that
+    selects ONE further labelling (rotating, so that all kinds are met over the instances)."""
+    nm = part['namings']
+    if [x['kind'] for x in nm] != list(NAMING_KINDS):
+        raise MachineryError(f"unexpected labellings emitted by the spec: {[x['kind'] for x in nm]}")
+    if pick == 'all':
+        return nm
+    return [nm[0], nm[1 + pick % (len(nm) - 1)]]
+
+
+def _name_keyed_nested_logit(self, nests):
+    """WRONG CODE for a negative control: GenerateModel.get_nested_logit with the MEV sums filed under the NAME
+    of the nest (two nests of the same name share the sum of the one defined last)."""
+    from biogeme.expressions import BelongsTo, ConditionalSum, ConditionalTermTuple, Variable, exp, log
+    from biogeme.models import loglogit
+    from biogeme.sampling_of_alternatives.sampling_context import LOG_PROBA_COL, MEV_WEIGHT
+
+    sums = {}
+    for nest in nests:
+        terms_ = []
+        for i, utility in self.mev_utilities.items():
+            alt = Variable(f'{self.mev_prefix}{self.context.id_column}_{i}')
+            weight = Variable(f'{self.mev_prefix}{MEV_WEIGHT}_{i}')
+            terms_.append(ConditionalTermTuple(condition=BelongsTo(alt, set(nest.list_of_alternatives)),
+                                               term=weight * exp(nest.nest_param * utility)))
+        sums[nest.name] = ConditionalSum(terms_)
+    corrected = {}
+    for i, utility in self.utilities.items():
+        alt = Variable(f'{self.context.id_column}_{i}')
+        terms_ = []
+        for nest in nests:
+            mu = nest.nest_param
+            terms_.append(ConditionalTermTuple(condition=BelongsTo(alt, set(nest.list_of_alternatives)),
+                                               term=(mu - 1.0) * utility + ((1.0 / mu) - 1.0) * log(sums[nest.name])))
+        corrected[i] = utility - Variable(f'{LOG_PROBA_COL}_{i}') + ConditionalSum(terms_)
+    return loglogit(corrected, None, 0)
 
 
 def replay_full(item):
@@ -537,11 +585,17 @@ def replay_full(item):
     from biogeme.expressions import Variable
     from biogeme.sampling_of_alternatives import ChoiceSetsGeneration, GenerateModel
 
-    rec, seed, mutate = item
+    rec, seed, mutate = item[:3]
+    pick = item[3] if len(item) > 3 else 0
     np.random.seed(seed % (2**32))
     inst = dict(alts=rec['alts'], strata=rec['strata'], mev=rec['mev'], hasmev=rec['hasmev'], inds=rec['inds'])
     problems = []
     n = 0
+    namings = {}  # (model, kind) -> [equal, refused]
+
+    def tally(model, kind, what):
+        namings.setdefault(f'{model}:{kind}', [0, 0])[0 if what == 'equal' else 1] += 1
+
     ctx = build_context(inst, 'a')
     db = ChoiceSetsGeneration(ctx).sample_and_merge(recycle=False)
     try:
@@ -550,6 +604,8 @@ def replay_full(item):
         pass
     if mutate == 'halve-one-correction':
         db.data['_log_proba_0'] = db.data['_log_proba_0'] + math.log(0.5)
+    if mutate == 'name-keyed-nested':
+        GenerateModel.get_nested_logit = _name_keyed_nested_logit
     fdb = _full_database(rec)
     ids = [a[0] for a in rec['alts']]
     shape = dict(strata=[len(s['sub']) for s in rec['strata']], hasmev=rec['hasmev'])
@@ -560,15 +616,37 @@ def replay_full(item):
         for r, (g, w) in enumerate(zip(got, want)):
             n += 1
             if not _close(g, w):
-                problems.append((key, dict(fam=fam, row=r, individual=rec['inds'][r], got=g, expected=w, instance=inst),
+                problems.append((key, dict(fam=fam, row=r, individual=rec['inds'][r], got=g, expected=w, instance=inst,
+                                           nest_names=facts.get('names')),
                                  dict(facts, fam=fam)))
-                return
+                return False
         tot = terms.evf(want_ll)
         n += 1
         if not _close(float(np.sum(got)), tot):
             problems.append((key + ':total', dict(fam=fam, got=float(np.sum(got)), expected=tot, instance=inst), dict(facts, fam=fam)))
+            return False
+        return True
 
-    for fam in FAMS:
+    def attempt(key, fam, naming, facts, build, want, structure):
+        """Evaluate one model built by `build` under one labelling of its nests; the value must be the spec's; the
+        library's own refusal (BiogemeError) is admissible only where the spec says the labelling may be refused."""
+        nonlocal n
+        facts = dict(facts, naming=naming['kind'], names=list(naming['names']))
+        try:
+            got = build()
+        except Exception as e:  # noqa
+            n += 1
+            if type(e).__name__ == 'BiogemeError' and naming['may_refuse']:
+                tally(key, naming['kind'], 'refused')
+                return
+            problems.append((f'full:{key}:exception',
+                             dict(fam=fam, nests=structure, nest_names=naming['names'], error=f'{type(e).__name__}: {str(e)[:200]}', instance=inst),
+                             dict(facts, fam=fam, exception=type(e).__name__)))
+            return
+        if compare(f'full:{key}', fam, got, want['p'], want['ll'], facts):
+            tally(key, naming['kind'], 'equal')
+
+    for fk, fam in enumerate(FAMS):
         c = ctx if fam == 'a' else build_context(inst, fam)
         gm = GenerateModel(c)
         lp = gm.get_logit()
@@ -587,48 +665,43 @@ def replay_full(item):
         for q, ns in enumerate(rec['nested']):
             if not rec['hasmev'] and (q > 0 or fam != 'a'):
                 continue  # one representative of the "no second sample" configuration per instance
-            nests = _nests(ns['nests'], ids)
-            facts = dict(clause='sampled-nested', second_sample=rec['hasmev'], **shape)
-            try:
-                lpn = GenerateModel(c).get_nested_logit(nests)
-                gotn = [float(v) for v in lpn.get_value_c(database=db, prepare_ids=True)]
-            except Exception as e:  # noqa
-                n += 1
-                problems.append(('full:sampled-nested:exception',
-                                 dict(fam=fam, nests=ns['nests'], error=f'{type(e).__name__}: {str(e)[:200]}', instance=inst),
-                                 dict(facts, fam=fam, exception=type(e).__name__)))
-                gotn = None
-            if gotn is not None:
-                compare('full:sampled-nested', fam, gotn, ns['fams'][fam]['p'], ns['fams'][fam]['ll'], facts)
-            fulln = lognested(_full_utilities(rec, fam), None, nests, Variable('choice'))
-            gotfn = [float(v) for v in fulln.get_value_c(database=fdb, prepare_ids=True)]
-            compare('full:full-nested', fam, gotfn, ns['fams'][fam]['p'], ns['fams'][fam]['ll'], dict(clause='full-nested', **shape))
+            todo = _namings(ns, pick if pick == 'all' else pick + fk + 2 * q) if rec['hasmev'] else ns['namings'][:1]
+            for naming in todo:
+                def sampled(naming=naming):
+                    lpn = GenerateModel(c).get_nested_logit(_nests(ns['nests'], ids, naming['names']))
+                    return [float(v) for v in lpn.get_value_c(database=db, prepare_ids=True)]
+
+                def on_full(naming=naming):
+                    fulln = lognested(_full_utilities(rec, fam), None, _nests(ns['nests'], ids, naming['names']), Variable('choice'))
+                    return [float(v) for v in fulln.get_value_c(database=fdb, prepare_ids=True)]
+
+                attempt('sampled-nested', fam, naming, dict(clause='sampled-nested', second_sample=rec['hasmev'], **shape), sampled,
+                        ns['fams'][fam], ns['nests'])
+                attempt('full-nested', fam, naming, dict(clause='full-nested', **shape), on_full, ns['fams'][fam], ns['nests'])
     # cross-nested logit (needs the second sample; without one the configuration fails like the nested logit)
     if rec['hasmev'] and mutate is None:
-        for fam in FAMS:
-            facts = dict(clause='sampled-cnl', second_sample=True, **shape)
-            cn = rec['cnl']
-            try:
-                cctx = build_context(inst, fam, cnl=_cnl_nests(cn['nests'], ids))
-                cdb = ChoiceSetsGeneration(cctx).sample_and_merge(recycle=False)
-                try:
-                    os.remove(cctx.biogeme_file_name)
-                except OSError:
-                    pass
-                lpc = GenerateModel(cctx).get_cross_nested_logit()
-                gotc = [float(v) for v in lpc.get_value_c(database=cdb, prepare_ids=True)]
-            except Exception as e:  # noqa
-                n += 1
-                problems.append(('full:sampled-cnl:exception',
-                                 dict(fam=fam, nests=cn['nests'], error=f'{type(e).__name__}: {str(e)[:200]}', instance=inst),
-                                 dict(facts, fam=fam, exception=type(e).__name__)))
-                gotc = None
-            if gotc is not None:
-                compare('full:sampled-cnl', fam, gotc, cn['fams'][fam]['p'], cn['fams'][fam]['ll'], facts)
-            fullc = logcnl(_full_utilities(rec, fam), None, _cnl_nests(cn['nests'], ids), Variable('choice'))
-            gotfc = [float(v) for v in fullc.get_value_c(database=fdb, prepare_ids=True)]
-            compare('full:full-cnl', fam, gotfc, cn['fams'][fam]['p'], cn['fams'][fam]['ll'], dict(clause='full-cnl', **shape))
-    return dict(problems=problems, n=n)
+        cn = rec['cnl']
+        for fk, fam in enumerate(FAMS):
+            for naming in _namings(cn, pick if pick == 'all' else pick + fk + 1):
+                def sampled(naming=naming):
+                    cctx = build_context(inst, fam, cnl=_cnl_nests(cn['nests'], ids, naming['names']))
+                    try:
+                        cdb = ChoiceSetsGeneration(cctx).sample_and_merge(recycle=False)
+                    finally:
+                        try:
+                            os.remove(cctx.biogeme_file_name)
+                        except OSError:
+                            pass
+                    lpc = GenerateModel(cctx).get_cross_nested_logit()
+                    return [float(v) for v in lpc.get_value_c(database=cdb, prepare_ids=True)]
+
+                def on_full(naming=naming):
+                    fullc = logcnl(_full_utilities(rec, fam), None, _cnl_nests(cn['nests'], ids, naming['names']), Variable('choice'))
+                    return [float(v) for v in fullc.get_value_c(database=fdb, prepare_ids=True)]
+
+                attempt('sampled-cnl', fam, naming, dict(clause='sampled-cnl', second_sample=True, **shape), sampled, cn['fams'][fam], cn['nests'])
+                attempt('full-cnl', fam, naming, dict(clause='full-cnl', **shape), on_full, cn['fams'][fam], cn['nests'])
+    return dict(problems=problems, n=n, namings=namings)
 
 
 def _close(a, b, rel=LL_REL):
